@@ -953,3 +953,6 @@ def check(repo, rep, tier):
     r_leaf_positions(repo, rep)
     rep.rule('R7.12', 'field order of the extended AUTO leaf record')
     r_extended_leaf(repo, rep)
+    rep.rule('R7.14', 'the Jigg span categories spell every feature an atom has (base[f=true]); the base alone only for an atom without one')
+    from .c15 import r_jigg_category
+    r_jigg_category(repo, rep, 'R7.14')
